@@ -219,13 +219,16 @@ def c13(ctx):
     if ctx.replay:
         return do_replay(ctx)
     if ctx.quick:
-        jobs = hist_jobs(ctx, "c13", 64, 1000) + crash_jobs(ctx, "c05", 8, 40, 0, 2, 6, first=500)
+        jobs = hist_jobs(ctx, "c13", 64, 1000) + crash_jobs(ctx, "c05", 6, 40, 0, 2, 6, first=500) + \
+            crash_jobs(ctx, "c03", 10, 90, 0, 2, 12, first=600)
     else:
-        jobs = hist_jobs(ctx, "c13", 1000, 2500, per_proc=16) + crash_jobs(ctx, "c05", 32, 150, 0, 2, 20, first=500)
+        jobs = hist_jobs(ctx, "c13", 1000, 2500, per_proc=16) + crash_jobs(ctx, "c05", 32, 150, 0, 2, 20, first=500) + \
+            crash_jobs(ctx, "c03", 64, 300, 0, 3, 40, first=600)
     agg = Agg().add(runner.run_jobs(jobs))
     extras = hist_common_extras(agg)
     extras.update(crash_images_recovered=agg.n("images"),
-                  orphan_checks_after_crash_recovery=agg.n("leak_checks_after_recovery"))
+                  orphan_checks_after_crash_recovery=agg.n("leak_checks_after_recovery"),
+                  post_crash_traces_checked_for_number_reuse=agg.n("post_crash_traces_checked_for_number_reuse"))
     extras.update(table_unlinks_observed=agg.n("c13_table_unlinks"),
                   unlinks_checked_against_live_iterators=agg.n("c13_unlinks_vs_live_iter"),
                   file_creations_checked_for_number_reuse=agg.n("c13_creates"),
